@@ -1705,15 +1705,18 @@ pub(crate) fn add_sequence_dyn_zip<W, R, T>(
                 XSequenceType::xtype(Arc::new(XType::Tuple(inner_types))),
             ),
             move |args, ns, _tca, rt| {
+                // every argument is evaluated (an error in a later one is the result) before an empty one decides
                 let mut seqs = vec![];
                 for a in args {
                     let a = xraise!(eval(a, ns, &rt)?);
-                    let seq = to_native!(a, XSequence<W, R, T>);
-                    if seq.is_empty() {
-                        return Ok(manage_native!(XSequence::<W, R, T>::Empty, rt));
-                    }
                     seqs.push(a);
                     rt.can_afford(&seqs)?
+                }
+                if seqs
+                    .iter()
+                    .any(|a| to_native!(a, XSequence<W, R, T>).is_empty())
+                {
+                    return Ok(manage_native!(XSequence::<W, R, T>::Empty, rt));
                 }
                 Ok(manage_native!(XSequence::<W, R, T>::Zip(seqs), rt))
             },
